@@ -112,7 +112,7 @@ PROPS["C01"] = {
                    "published check value and captured frames): every typed delivery must be exactly one frame whose type is its first 12 payload bits. "
                    "Corruptions are constructed (each CRC byte, reserved bits, zero length, length field, CRC re-computed over the wrong extent), so the "
                    "classes the statement names are all hit thousands of times; the 256^n space itself cannot be exhausted."),
-    "rule": ("stream: adversarial segment grammar (valid frames of any type/length, junk with and without 0xD3, 14 corruption kinds, truncations, "
+    "rule": ("stream: adversarial segment grammar (valid frames of any type/length, junk with and without 0xD3, 15 corruption kinds, truncations, "
              "near-frames, raw bytes) through HandleMessages with drawn channel capacities and through FetchNextMessageFrame over a closed channel; "
              "buffer: single buffers for GetMessage (valid, corrupted, truncated, valid+extra, valid+valid, declared length shorter/longer than the data "
              "with the CRC computed over the whole buffer, arbitrary 0xD3-led bytes). Non-trivial = stream holds a 0xD3-led candidate that is not a valid "
